@@ -96,10 +96,15 @@ def analyse(ctx, state, area, name, fn, max_flips, rng, label=''):
         if extra:
             p.update(extra)
         return p
+    pre = enc.es(state)
     ok, obs = call_real(fn, state, rng=None)
     ctx.ev()
     if not ok:
         ctx.violation('occlusion', 'obs.raises', f'{name} raised {describe_exc(obs)}', 'occ_case', payload())
+        return None
+    if enc.es(state) != pre:
+        ctx.violation('occlusion', f'{name}.mutates_state', f'{label}{name} area {obsgen.area_json(area)}: observing modified the state '
+                      f'(hidden cells written into the world)', 'occ_case', payload())
         return None
     e0 = enc.es(obs)
     # agent's own cell + chain
